@@ -12,6 +12,8 @@ import (
 	"testing"
 
 	wctx "github.com/Vedant9500/WTF/internal/context"
+	"github.com/Vedant9500/WTF/internal/database"
+	"github.com/Vedant9500/WTF/internal/embedding"
 	"github.com/Vedant9500/WTF/verifharness/gen"
 	"github.com/Vedant9500/WTF/verifharness/ref"
 	"github.com/Vedant9500/WTF/verifharness/stat"
@@ -34,8 +36,34 @@ func TestC13_Boosts(t *testing.T) {
 			ubiq = gen.Ubiquitous(t, cmds)
 		}
 		db := gen.Load(t, cmds)
+		withEmb := false
+		if len(cmds) > 0 && len(cmds) <= 80 && rapid.IntRange(0, 2).Draw(t, "embeddings") == 0 {
+			// the optional semantic stage runs after the boosts: it must not make one entry's score depend on another's
+			database.VerifSetEmbeddingIndex(db, drawEmbeddingIndex(t, cmds))
+			withEmb = true
+		}
 		warmUp(t, db, cmds)
 		q, qc := gen.Query(t, cmds, []gen.QueryClass{"vocab", "vocab", "vocab", "nlp", "nlp", "mixed", "typo", "long"})
+		var runnerUp map[string]float64
+		if rapid.IntRange(0, 11).Draw(t, "semantic-runner-up") == 0 {
+			// two entries of one shape, each with a word of its own, asked for together: equal before the
+			// semantic stage. Only the second is close to the query in meaning; only the first contains the
+			// word the context boosts. What the second scores is no business of that boost
+			ws := rapid.SliceOfNDistinct(rapid.SampledFrom([]string{"zorvex", "plinth", "quarn", "vexil", "drumlin", "sporran"}), 2, 2, func(s string) string { return s }).Draw(t, "runner-up-words")
+			cmds = []database.Command{{Command: ws[0] + " sync", Description: "keeps things in step"}, {Command: ws[1] + " sync", Description: "keeps things in step"}, {Command: "other tool", Description: "unrelated"}}
+			db = gen.Load(t, cmds)
+			v := rapid.SliceOfN(rapid.Float32Range(0.2, 1), 4, 4).Draw(t, "runner-up-vec")
+			sim := rapid.SampledFrom([]float32{1, 0.9, 0.5}).Draw(t, "runner-up-closeness")
+			away := []float32{v[1], -v[0], v[3], -v[2]} // at right angles to v
+			near := make([]float32, 4)
+			for i := range near {
+				near[i] = sim*v[i] + (1-sim)*away[i]
+			}
+			database.VerifSetEmbeddingIndex(db, &embedding.Index{Dimension: 4, WordVectors: map[string][]float32{ws[0]: v, ws[1]: v},
+				CmdEmbeddings: [][]float32{away, near, make([]float32, 4)}})
+			q, qc, cls, withEmb, ubiq = ws[0]+" "+ws[1], "runner-up", "semantic-runner-up", true, ""
+			runnerUp = map[string]float64{ws[0]: rapid.SampledFrom([]float64{1.5, 2, 3, 5}).Draw(t, "runner-up-boost")}
+		}
 		if ubiq != "" {
 			q = rapid.SampledFrom([]string{ubiq, ubiq + " " + q, q + " " + ubiq}).Draw(t, "ubiquitous-query")
 		}
@@ -72,6 +100,9 @@ func TestC13_Boosts(t *testing.T) {
 		boosts := map[string]float64{}
 		for i := rapid.IntRange(1, 3).Draw(t, "nb"); i > 0; i-- {
 			boosts[rapid.SampledFrom(pool).Draw(t, "bw")] = rapid.SampledFrom([]float64{1, 1.3, 1.5, 2, 2.5, 3, 5}).Draw(t, "bf")
+		}
+		if runnerUp != nil {
+			boosts = runnerUp
 		}
 		if overCap && rapid.IntRange(0, 3).Draw(t, "boost-commonest") > 0 {
 			// the context names the most common of the later words (the ones a pruning step would drop first)
@@ -145,6 +176,9 @@ func TestC13_Boosts(t *testing.T) {
 		labels := []string{"boosts", "db:" + string(cls), "q:" + string(qc)}
 		if opt.UseNLP {
 			labels = append(labels, "nlp")
+		}
+		if withEmb {
+			labels = append(labels, "embedding-index-attached")
 		}
 		rec.Case(inQuery && some && notAll, map[string]any{"db": gen.BriefDB(cmds, 5), "query": q, "boosts": boosts, "options": optBrief(opt), "results": len(a)}, labels...)
 	})
